@@ -2196,7 +2196,26 @@ def best_rules(run, rule, ast):
                 scans = [lp for lp in astq.walk(st.get("then")) if lp.get("k") in ("CXXForRangeStmt", "ForStmt") and any(
                     x.get("k") == "CallExpr" and (x.get("callee") or "").endswith("::is_more_specific") for x in astq.walk(lp))]
                 grows = any(x.get("k") == "CXXMemberCallExpr" and (x.get("callee") or "").endswith("::push_back") and _refs(x["c"][0], res) for x in astq.walk(st.get("then")))
-                if size1 and scans and grows:
+                # ... and the confirmation asks the right question: the set grows when the SURVIVOR does NOT beat the candidate, i.e. under
+                # `!is_more_specific(<survivor: front() / [0] / *begin() of the result>, <scan variable>)`
+                right = False
+                for lp in scans:
+                    lv = lp["var"]["did"] if lp.get("k") == "CXXForRangeStmt" else None
+                    for ifs in astq.walk(lp.get("body")):
+                        if ifs.get("k") != "IfStmt" or not any(x.get("k") == "CXXMemberCallExpr" and (x.get("callee") or "").endswith("::push_back") and _refs(x["c"][0], res) for x in astq.walk(ifs.get("then"))):
+                            continue
+                        for c in astq.walk(ifs["cond"]):
+                            if c.get("k") == "UnaryOperator" and c.get("op") == "!":
+                                call = astq.strip(c["c"][0])
+                                if call is not None and call.get("k") == "CallExpr" and (call.get("callee") or "").endswith("::is_more_specific") and len(call["c"]) == 3:
+                                    a0, a1 = call["c"][1], call["c"][2]
+                                    if _refs(a0, res) and not _refs(a1, res) and (lv is None or _refs(a1, lv)):
+                                        right = True
+                if size1 and scans and grows and right:
+                    post.append(st)
+                elif size1 and scans and grows and not right:
+                    run.instance(rule, "%s: the confirmation of the single survivor asks whether the survivor beats each candidate" % short(f), (f["file"], st["l"]), ok=False)
+                    run.violation(rule, "compiler::best|fold-confirmation", "the confirmation after the scan does not grow the set under `!is_more_specific(survivor, candidate)`: a survivor that does not beat every candidate still wins", (f["file"], st["l"]))
                     post.append(st)
             okp = bool(post)
             run.instance(rule, "%s: a single survivor of the scan is confirmed against every candidate (the relation is not transitive across unrelated positions)" % short(f), (f["file"], f["line"]), ok=okp)
